@@ -210,6 +210,25 @@ func (s c20NASpec) build(id string) *c20Msg {
 // a well-formed odd (optional, unknown) TLV record: type 0xfde9 (65001), length 2
 var c20ExtraTLV = []byte{0xfd, 0xfd, 0xe9, 0x02, 0xbe, 0xef}
 
+// c20ExtraLens: total extra-data lengths around the store limit (limit-8 .. limit+1).
+var c20ExtraLens = func() (l []int) {
+	for n := c20StoreExtraLimit - 8; n <= c20StoreExtraLimit+1; n++ {
+		l = append(l, n)
+	}
+	return l
+}()
+
+// c20BigTLV is one well-formed TLV record of type 65001 whose encoding is exactly
+// total bytes long (3 bytes type, 3 bytes length, total-6 bytes value).
+func c20BigTLV(total int) []byte {
+	l := total - 6
+	b := []byte{0xfd, 0xfd, 0xe9, 0xfd, byte(l >> 8), byte(l)}
+	for i := 0; i < l; i++ {
+		b = append(b, byte(i*7+3))
+	}
+	return b
+}
+
 type c20Catalogue struct {
 	byID map[string]*c20Msg
 	// Honest messages, in the order used as context prefixes.
@@ -447,6 +466,32 @@ func c20BuildCatalogue() *c20Catalogue {
 		s.max, s.min = lnwire.MilliSatoshi(c20TinyCapacity*1000), 1
 		sem(&c.SemCU, s.build("xCU.tiny-channel,max=capacity"))
 	}
+
+	// extra opaque data around the graph store's documented limit of 10 000 bytes
+	// (the KV store keeps htlc_maximum_msat in the same blob): one well-formed odd
+	// TLV record (type 65001) of total length N, correctly signed, otherwise the
+	// fresh direction-0 update
+	for _, n := range c20ExtraLens {
+		n := n
+		sem(&c.SemCU, cu(func(s *c20CUSpec) { s.extra = c20BigTLV(n); s.base = 7000 + uint32(n-c20StoreExtraLimit) }).build(fmt.Sprintf("xCU.extra=%dB,signed", n)))
+	}
+
+	// ---- zombie life cycle ---------------------------------------------------
+	// honest updates whose timestamps lie beyond the two-week horizon (a channel
+	// that has only such policies is pruned by the next prune tick) ...
+	day := uint32(24 * 3600)
+	E := uint32(c20Epoch)
+	old := func(id string, dir int, ts uint32, base uint32) {
+		sp := c20HonestCU(dir, T)
+		sp.ts, sp.base, sp.rate = ts, base, 50
+		c.add(sp.build(id))
+	}
+	old("oCU0.-16d", 0, E-16*day, 6016)
+	old("oCU0.-15d", 0, E-15*day, 6015)
+	old("oCU1.-15d12h", 1, E-15*day-day/2, 6115)
+	// ... and updates newer than those, yet still beyond the horizon
+	old("oCU0.-14d12h", 0, E-14*day-day/2, 6014)
+	old("oCU1.-14d12h", 1, E-14*day-day/2, 6114)
 
 	// ---- node_announcement ---------------------------------------------------
 	na := func(f func(*c20NASpec)) c20NASpec { s := c20HonestNA(1, T+1); s.alias = "node-1-new"; f(&s); return s }
